@@ -18,9 +18,10 @@ def jobs(pid, tier, seed):
     out += [{"kind": "still-held", "variant": v} for v in range(16)]
     out += [{"kind": "retire", "allow_list": a, "level": l, "how": h, "warm": w, "usage": u}
             for a in (True, False) for l in (1, 2) for h in ("release", "close", "close-two-sides", "expiry-one", "restart-close")
-            for w in (0, 1) for u in (0, 1) if l == 1 or (w == 1 and u == 0 and (a or tier == "thorough"))]
+            for w in (0, 1, 2, 3) for u in (0, 1) if (l == 1 and (w < 2 or u == 0)) or (w in (1, 2) and u == 0 and (a or tier == "thorough"))]
     n = 2500 if tier == "quick" else 50000
     out += [{"kind": "random", "seed": seed * 1000003 + i} for i in range(n)]
+    out += [{"kind": "random", "seed": seed * 1000003 + 5000000 + i, "life": 1} for i in range(n // 2)]
     return out
 
 
@@ -74,7 +75,7 @@ def run_job(pid, job, acc):
     k = job["kind"]
     if k == "random":
         s = job["seed"]
-        hist = generate(s, **GEN)
+        hist = generate(s, style=("life" if job.get("life") else None), **GEN)
         cfg = cfg_for(s)
 
         def post(ex):
@@ -205,6 +206,13 @@ def run_retire(job, acc):
                 c2 = b.conn("app", "s2")
                 b.send(c2, type="claim", nameplate="%d" % i)
                 b.send(c2, type="open", mailbox={"$claimed": c})
+    if job["warm"] >= 2:
+        # an allocate while the level is full (answered with a longer name) - whatever that made the server remember
+        # about full levels is out of date as soon as a name of this level is retired
+        w1 = b.conn("app", "s8")
+        b.send(w1, type="allocate")
+        if job["warm"] == 3:
+            b.send(w1, type="release", nameplate={"$alloc": w1})
     if how == "expiry-one":
         # everybody but the victim's holder stays subscribed... simpler: refresh all others just before the sweep
         b.drop(holder)
